@@ -370,9 +370,10 @@ class FakeTLSSock(FakeSock, ssl.SSLSocket):
 
 
 class Result:
-    __slots__ = ("out", "writes", "escaped", "caught", "log", "wall", "failed_writes", "proto")
+    __slots__ = ("out", "writes", "escaped", "caught", "log", "wall", "failed_writes", "proto", "nwrites")
 
-    def __init__(self, out, writes, escaped, caught, log, wall, failed_writes=0):
+    def __init__(self, out, writes, escaped, caught, log, wall, failed_writes=0, nwrites=None):
+        self.nwrites = len(writes) if nwrites is None else nwrites
         self.proto = type(PM.last).__name__ if PM.last is not None else None
         self.out = out
         self.writes = writes
@@ -425,7 +426,7 @@ def serve(server, data: bytes, tls=False, fail_at=None, fail_exc=None, sock=None
         escaped = e
     wall = _time.perf_counter() - t0
     writes = sock.collect()
-    return Result(b"".join(writes), writes, escaped, list(CATCHALL.caught), list(LOG.records), wall, sock.failed)
+    return Result(b"".join(writes), writes, escaped, list(CATCHALL.caught), list(LOG.records), wall, sock.failed, sock.nwrites)
 
 
 def serve_socketpair(server, data: bytes, tls=False, timeout=20.0) -> Result:
